@@ -187,7 +187,7 @@ PROPS["C10"] = {
                   "(exactly once when finished); every deref that returns an outcome returns the one outcome the body produced; a status flag seen true is never seen false by a call invoked after that response; future-done? is true for every call invoked "
                   "after a deref returned the outcome; a cancel that returned true leaves the future cancelled for good, its body's context cancelled, and every later cancelled?/cancel says so; a cancel that returned false found it done and not cancelled and changed nothing "
                   "(never cancelled, context untouched); the flags are only accessed by the holder of f.mu (no data race). These hold on the tree WITH the fix 4129ba5 (before it the flags were unsynchronised and done was raised after delivery: genuine defect, fixed). "
-                  "Not proved (partial): liveness (a patient deref eventually returns once the body ends) and 'a cancel that finds the future completed and uncancelled returns false' in its strongest temporal form; both are checked on the recorded histories (final patient deref under watchdog; cancel-true-needs-an-earlier-cancel oracle). "
+                  "no hang (C10_never_stuck): in every reachable state where the body has not delivered or some caller has a call to make or finish, some thread can move, and a delivered outcome is never lost (it is in the slot or with the one reader re-depositing it). Not proved (partial): termination under a fair scheduler as such (only the absence of stuck states), and 'a cancel that finds the future completed and uncancelled returns false' in its strongest temporal form; both are also checked on the recorded histories (final patient deref under watchdog; cancel-true-needs-an-earlier-cancel oracle). "
                   "Tie: action lists of NewFuture's goroutine, Deref, Cancel, IsDone, IsCancelled and the status builtins equal the lists the model follows; lock discipline of every function; 400/4000 recorded histories accepted by the extracted checker, 0 races.",
     "level_note": "trusted: as C09; channels are modelled as one-slot buffers (capacity 1 as in NewFuture), select as nondeterministic choice among ready cases, context cancellation as a boolean the body's outcome may depend on",
     "trusted": ["translator go/cmd/gen (action lists)", "modelled rather than verified: buffered channels of capacity 1, select, context.WithCancel, sync.Mutex", "Go race detector"],
